@@ -77,7 +77,7 @@ pub fn gen(seed: u64, tier: Tier) -> ScenarioSpec {
     }
     let len = gen::approx_len(&rec);
     let skip_hash = rng.chance(1, 2);
-    let live = rng.chance(3, 10) && !rec.raw_len_zero && !rec.extras.unknown.iter().any(|u| u.after.iter().any(|k| *k >= 1_000_000));
+    let live = rng.chance(3, 10) && !rec.raw_len_zero;
     let mut spec = gen::base_spec(P, if live { "S2" } else { "S1" }, seed, rec);
     spec.stream = gen::gen_stream(&mut rng, len, false);
     spec.knobs.insert("skip_hash".into(), skip_hash as i64);
